@@ -807,21 +807,28 @@ func tplReloadDuringLogin(e *sEnv) bool {
 		e.fail("configured-proxy-not-started", "%s: status %q", a, e.phase(a))
 		return false
 	}
-	rounds := 6
+	rounds := 10
 	for r := 1; r <= rounds; r++ {
-		delay := []time.Duration{0, 50 * time.Microsecond, 150 * time.Microsecond, 400 * time.Microsecond, time.Millisecond, 2500 * time.Microsecond}[rng.Intn(6)]
+		delay := []time.Duration{0, 20 * time.Microsecond, 50 * time.Microsecond, 100 * time.Microsecond, 200 * time.Microsecond, 400 * time.Microsecond, 800 * time.Microsecond, 2 * time.Millisecond}[rng.Intn(8)]
 		meta := fmt.Sprintf("a%d", r)
-		applied := make(chan struct{})
+		// the new configuration is parsed beforehand: only UpdateAllConfigurer itself runs at the chosen instant
+		e.metas[a] = meta
+		_, pcs, vcs, err := h.LoadClientConfig(prop, e.cfgText())
+		if err != nil {
+			run.Inconclusive("scripted: configuration does not load: " + err.Error())
+			return false
+		}
+		applied := make(chan error, 1)
 		f.mu.Lock()
 		f.onLogin = func() {
 			f.mu.Lock()
 			f.onLogin = nil
 			f.mu.Unlock()
 			go func() {
-				defer close(applied)
-				time.Sleep(delay)
-				e.metas[a] = meta
-				e.reload()
+				if delay > 0 {
+					time.Sleep(delay)
+				}
+				applied <- e.cli.Svc.UpdateAllConfigurer(pcs, vcs)
 			}()
 		}
 		f.mu.Unlock()
@@ -832,7 +839,12 @@ func tplReloadDuringLogin(e *sEnv) bool {
 			return false
 		}
 		select {
-		case <-applied:
+		case err := <-applied:
+			if err != nil {
+				viol(e.c, "reload-refused", "UpdateAllConfigurer returned %v", err)
+				return false
+			}
+			run.Count("reloads", 1)
 		case <-time.After(20 * time.Second):
 			run.Inconclusive("scripted: reload did not return")
 			return false
